@@ -109,7 +109,7 @@ def generate(seed: int, tier: str, phase: str) -> Dict[str, Any]:
         k = r.choice(extra)
         op: Dict[str, Any] = {"op": k, "i": r.randrange(8)}
         if k == "call":
-            op.update(k=r.randrange(3), gseed=r.randrange(4))
+            op.update(k=r.randrange(3), gseed=r.randrange(4), nograd=r.random() < 0.15)
         if k == "fleet":
             op.update(n=r.choice([9, 11]))
         ops.append(op)
@@ -238,18 +238,21 @@ def execute(plan: Dict[str, Any]) -> Dict[str, Any]:
                         where += " (first call after the failed one)"
                     else:
                         kk, gs = op["k"], op["gseed"]
+                    ng = bool(op.get("nograd")) and k == "call"
+                    if ng:
+                        probe("calls_under_no_grad")
                     try:
-                        got = tw.run(m, m, tw.clone_inputs(w["inputs"][kk]), gs)
+                        got = tw.run(m, m, tw.clone_inputs(w["inputs"][kk]), gs, no_grad=ng)
                     except Exception as e:
                         raise Violation("runs_without_error", _exc_culprit(e, w["sig"]),
                                         f"{type(e).__name__}: {str(e)[:500]} {where} program {w['sig']}")
-                    want = tw.run(lambda *xs: w["ref"].run(m, xs), m, tw.clone_inputs(w["inputs"][kk]), gs)
+                    want = tw.run(lambda *xs: w["ref"].run(m, xs), m, tw.clone_inputs(w["inputs"][kk]), gs, no_grad=ng)
                     d = tw.diff(got, want)
                     if d:
                         raise Violation("equals_recipe", _diff_culprit(w["spec"]),
                                         f"{d} {where} program {w['sig']} replace={w['replace']}")
                     dg = tw.result_digest(got)
-                    key = (id(m), kk, gs)
+                    key = (id(m), kk, gs, ng)
                     if key in w["first"] and w["first"][key] != dg:
                         raise Violation("equals_recipe", "result_changed_between_calls", where)
                     w["first"].setdefault(key, dg)
